@@ -4,12 +4,18 @@
    specification determines and the projection of the abstract state. *)
 EXTENDS Retention, Json, TLC
 CONSTANT Depth
-VARIABLE hist
+VARIABLES hist, draw
 
-SimInit == Init /\ hist = << [ev |-> ev, st |-> Proj] >>
 \* One successor per action kind: arguments are drawn with RandomElement so that `-simulate`
 \* chooses uniformly among action kinds, not among argument tuples.
 Pick(S) == {RandomElement(S)}
+\* `-simulate` computes the set of initial states once: per [store, isr, minISR] four fresh
+\* channels and four randomly drawn loaded stores (`draw` only keeps them apart).
+SimInit ==
+  /\ \E c \in Bases, d \in 1..8 :
+        /\ draw = d
+        /\ \E p \in (IF d <= 4 THEN {NoPre} ELSE Pick(PresFor(c.minISR) \ {NoPre})) : InitC(WithPre(c, p))
+  /\ hist = << [ev |-> ev, st |-> Proj] >>
 \* Pick from a possibly empty set: -1 stands for "nothing to pick".
 PickOr(S) == Pick(IF S = {} THEN {-1} ELSE S)
 ISRF == cfg.isr \cap Followers
@@ -54,14 +60,35 @@ SimStep ==
   \/ \E start \in Pick({ret, ret + 1, ret + 2}), lim \in Pick(Limits) : Sync("up", start, 0, lim)
   \/ \E lim \in Pick(Limits) : Sync("down", 0, 0, lim)
   \/ HeadMsg
+  \* reads issued on a non-leader node and forwarded to the leader, whose own metadata lookup
+  \* answers (any older origin record) or answers not-found (current origin record)
+  \/ \E from \in Pick(0..(leo + 1) \cup {Inf}), mx \in Pick(0..leo \cup {Inf}), lim \in Pick(Limits), miss \in Pick(BOOLEAN) :
+        \E oret \in Pick(IF miss THEN {metaRet} ELSE 0..metaRet) : ReadFwd(from, mx, lim, FALSE, miss, oret)
+  \/ \E from \in Pick(1..(leo + 1) \cup {Inf}), lim \in Pick(Limits), miss \in Pick(BOOLEAN) :
+        \E mx \in Pick({from, Inf}), oret \in Pick(IF miss THEN {metaRet} ELSE 0..metaRet) :
+           ReadFwd(from, mx, lim, TRUE, miss, oret)
+  \* aimed: the whole log forward / the latest page with the cap left to the leader, lookup not-found
+  \/ \E from \in Pick({0, 1}), lim \in Pick(Limits \cup {MaxLeo}) : ReadFwd(from, Inf, lim, FALSE, TRUE, metaRet)
+  \/ \E lim \in Pick(Limits \cup {MaxLeo}) : ReadFwd(Inf, Inf, lim, TRUE, TRUE, metaRet)
+  \* aimed: the same with the lookup answering and the oldest origin record
+  \/ \E from \in Pick({0, 1}), lim \in Pick(Limits \cup {MaxLeo}) : ReadFwd(from, Inf, lim, FALSE, FALSE, 0)
+  \/ \E lim \in Pick(Limits \cup {MaxLeo}) : ReadFwd(Inf, Inf, lim, TRUE, FALSE, 0)
+  \/ \E miss \in Pick(BOOLEAN), batch \in Pick(BOOLEAN) :
+        \E oret \in Pick(IF miss THEN {metaRet} ELSE 0..metaRet) : HeadFwd(miss, oret, batch)
+  \/ \E mode \in Pick({"up", "down"}), start \in Pick(0..(leo + 1)), end \in Pick({0, 0, leo, leo + 1}), lim \in Pick(Limits), miss \in Pick(BOOLEAN) :
+        \E oret \in Pick(IF miss THEN {metaRet} ELSE 0..metaRet) : SyncFwd(mode, start, end, lim, miss, oret)
+  \* aimed: a page that contains or touches a barrier row, read on the non-leader node
+  \/ \E b \in PickOr(bar), d \in Pick({0, 1}), lim \in Pick(Limits), miss \in Pick(BOOLEAN) :
+        b # -1 /\ SyncFwd("down", b + d, 0, lim, miss, metaRet)
   \/ \E after \in Pick(0..(leo + 1)) : LastVis(after)
   \* aimed: pages that contain or touch a barrier row
   \/ \E b \in PickOr(bar), d \in Pick({0, 1}), lim \in Pick(Limits) : b # -1 /\ Sync("down", b + d, 0, lim)
   \/ \E b \in PickOr(bar), d \in Pick({0, 1}), lim \in Pick(Limits) : b # -1 /\ b - d >= 0 /\ Sync("up", b - d, 0, lim)
 \* The last level is a single stuttering successor, so that the behaviour is printed once.
-SimNext == IF Len(hist) = Depth + 1
-             THEN UNCHANGED vars /\ hist' = Append(hist, hist[1])
-             ELSE SimStep /\ hist' = Append(hist, [ev |-> ev', st |-> Proj'])
+SimNext == /\ draw' = draw
+           /\ IF Len(hist) = Depth + 1
+                THEN UNCHANGED vars /\ hist' = Append(hist, hist[1])
+                ELSE SimStep /\ hist' = Append(hist, [ev |-> ev', st |-> Proj'])
 \* The invariant is evaluated on every candidate successor: print the prefix one level later.
 Emit    == Len(hist) = Depth + 2 => PrintT("BEH " \o ToJson([steps |-> SubSeq(hist, 1, Depth + 1)]))
 ===============================================================================
